@@ -482,8 +482,9 @@ int parsec_argv_delete(int *argc, char ***argv, int start, int num_to_delete)
     tmp = (char**)realloc(*argv, sizeof(char*) * (i + 1));
     if (NULL != tmp) *argv = tmp;
 
-    /* adjust the argc */
-    (*argc) -= num_to_delete;
+    /* adjust the argc: i is the new number of tokens, so count - i tokens
+     * were removed (fewer than num_to_delete when the range ran past the end) */
+    (*argc) -= (count - i);
 
     return PARSEC_SUCCESS;
 }
